@@ -9,6 +9,9 @@ on its behaviour: a false alarm in waiting. Operators (all semantics-preserving)
   nest-and       `if a and b: body` (no else)  ->  `if a:` `if b: body`
   extract-arg    `f(g(x), ...)` as the value of a simple statement  ->  `extracted_arg_ = g(x)` just before, `f(extracted_arg_, ...)`
   inline-local   `x = <expression without call>` read once, by the next statement  ->  the expression in place of x
+  dedent-else    `if c: ...return / else: B`  ->  `if c: ...return` then B (the body always exits)
+  ifexp-to-if    `x = a if c else b`  ->  an if / else statement assigning x
+  comp-to-loop   `x = [e for v in it if c]`  ->  `x = []` and an explicit loop appending
 usage: tools/eqsweep.py [--files a.py,b.py] [--limit N] [--jobs 14] [--out FILE]
 """
 import argparse
@@ -151,6 +154,58 @@ def variants_of(src: str, rel: str):
                             l2 = s2.splitlines(keepends=True)
                             del l2[st.lineno - 1: st.end_lineno]
                             out.append((st.lineno, f"inline-local `{nm} = {rhs[:40]}`", "".join(l2)))
+    # ---- dedent-else / ifexp-to-if / comp-to-loop
+    def always_exits(stmts):
+        return bool(stmts) and isinstance(stmts[-1], (ast.Return, ast.Raise, ast.Continue, ast.Break))
+    for fn in ast.walk(tree):
+        if not isinstance(fn, (ast.FunctionDef, ast.AsyncFunctionDef)):
+            continue
+        for blk in ast.walk(fn):
+            for field in ("body", "orelse", "finalbody"):
+                stmts = getattr(blk, field, None)
+                if not isinstance(stmts, list):
+                    continue
+                for i, st in enumerate(stmts):
+                    first = lines[st.lineno - 1] if hasattr(st, "lineno") else ""
+                    # dedent-else: `if c: ...exit / else: B`  ->  `if c: ...exit` followed by B at the if's level
+                    if isinstance(st, ast.If) and first.lstrip().startswith("if ") and st.orelse and always_exits(st.body) and not (len(st.orelse) == 1 and isinstance(st.orelse[0], ast.If)):
+                        ind = indent_of(src, st)
+                        else_line = st.orelse[0].lineno - 2
+                        # find the `else:` line
+                        while else_line >= 0 and lines[else_line].strip() != "else:":
+                            else_line -= 1
+                        if else_line < st.body[-1].end_lineno - 1:
+                            continue
+                        else_src = lines[st.orelse[0].lineno - 1: st.orelse[-1].end_lineno]
+                        ded = [l[4:] if l.startswith(ind + "    ") else l for l in else_src]
+                        new_src = "".join(lines[:else_line]) + "".join(ded) + "".join(lines[st.orelse[-1].end_lineno:])
+                        out.append((st.lineno, f"dedent-else `{ast.get_source_segment(src, st.test)[:40]}`", new_src))
+                    # ifexp-to-if: `x = a if c else b`  ->  if statement
+                    if isinstance(st, ast.Assign) and len(st.targets) == 1 and isinstance(st.targets[0], ast.Name) and isinstance(st.value, ast.IfExp) and st.lineno == st.end_lineno:
+                        ind = indent_of(src, st)
+                        t = st.targets[0].id
+                        a, c, b = (ast.get_source_segment(src, x) for x in (st.value.body, st.value.test, st.value.orelse))
+                        new_block = f"{ind}if {c}:\n{ind}    {t} = {a}\n{ind}else:\n{ind}    {t} = {b}\n"
+                        out.append((st.lineno, f"ifexp-to-if `{t} = ... if {c[:30]}`", "".join(lines[: st.lineno - 1]) + new_block + "".join(lines[st.end_lineno:])))
+                    # comp-to-loop: `x = [e for v in it if c]`  ->  explicit loop
+                    if isinstance(st, ast.Assign) and len(st.targets) == 1 and isinstance(st.targets[0], ast.Name) and isinstance(st.value, ast.ListComp) and len(st.value.generators) == 1 \
+                            and not st.value.generators[0].is_async and len(st.value.generators[0].ifs) <= 1:
+                        g = st.value.generators[0]
+                        t = st.targets[0].id
+                        if any(isinstance(x, ast.Name) and x.id == t for x in ast.walk(st.value)):
+                            continue
+                        ind = indent_of(src, st)
+                        e, v, it = (ast.get_source_segment(src, x) for x in (st.value.elt, g.target, g.iter))
+                        if None in (e, v, it) or any("\n" in x for x in (e, v, it)):
+                            continue
+                        body = f"{ind}    {t}.append({e})\n"
+                        if g.ifs:
+                            c = ast.get_source_segment(src, g.ifs[0])
+                            if c is None or "\n" in c:
+                                continue
+                            body = f"{ind}    if {c}:\n{ind}        {t}.append({e})\n"
+                        new_block = f"{ind}{t} = []\n{ind}for {v} in {it}:\n{body}"
+                        out.append((st.lineno, f"comp-to-loop `{t} = [...]`", "".join(lines[: st.lineno - 1]) + new_block + "".join(lines[st.end_lineno:])))
     ok = []
     for line, desc, new in out:
         if new == src:
